@@ -133,6 +133,21 @@ theorem parseArch_spec (s : Text) : parseArch s = Spec.canonArch s := by
   · have h' : s ∉ keysOf Spec.aliases := fun hk => h (parse_table_facts.2 s hk)
     simp [parseArch, Spec.canonArch, lookupT_none h, lookupT_none h']
 
+theorem apk_table_facts :
+    (∀ p ∈ toAPKTable, lookupT p.1 Spec.apkNames = some p.2) ∧ (∀ k ∈ keysOf Spec.apkNames, k ∈ keysOf toAPKTable) := by decide
+
+/-- ToAPK is the alias table read backwards, for every string -/
+theorem toAPK_spec (s : Text) : toAPK s = Spec.toAPK s := by
+  unfold toAPK Spec.toAPK
+  rw [parseArch_spec]
+  by_cases h : Spec.canonArch s ∈ keysOf toAPKTable
+  · obtain ⟨v, hv⟩ := lookupT_isSome h
+    have := apk_table_facts.1 _ (lookupT_mem hv)
+    simp only at this
+    rw [hv, this]
+  · have h' : Spec.canonArch s ∉ keysOf Spec.apkNames := fun hk => h (apk_table_facts.2 _ hk)
+    rw [lookupT_none h, lookupT_none h']
+
 theorem oci_table_facts :
     (∀ p ∈ toOCITable, p.1 ∈ Spec.knownArchs ∧ splitSlash p.1 = some (p.2.arch, p.2.variant)) ∧
     (∀ a ∈ Spec.knownArchs, a ∈ keysOf toOCITable ∨ splitSlash a = none) := by decide
